@@ -1403,10 +1403,7 @@ def poison_sources(text: str) -> list[str]:
                    + lit_src(text, "'") + "' }}")
     out.append("{{ a['" + lit_src(text, "'") + "'] }}{% assign z = b | default: x[\"" + lit_src(text, '"') + "\"] %}")
     out.append("{% increment '" + lit_src(text, "'") + "' %}{% cycle \"" + lit_src(text, '"') + "\": 1, 2 %}")
-    if not (RE_WORD.fullmatch(text) and text != text.strip()):
-        # (a name edged with Unicode whitespace in a line statement is known finding
-        # unicode-space-in-bare-name, re-observed on its own witness)
-        out.append("{% liquid echo a['" + lit_src(text, "'") + "']\n echo '" + lit_src(text, "'") + "' %}")
+    out.append("{% liquid echo a['" + lit_src(text, "'") + "']\n echo '" + lit_src(text, "'") + "' %}")
     return out
 
 
@@ -1719,6 +1716,7 @@ TEMPLATE_CORPUS = [
     "{{ 'say \"hi\"' }}{{ \"say \\\"hi\\\"${a}'\" }}", "{{ a[\"don't\"] }}{{ '\"${a | append: \"don't\"}don\\'t' }}",
     "{% increment \"don't\" %}{{ 'don\\'t${a}\"' }}{% assign z = \"don't\" %}{{ z }}",
     "{% liquid echo \"don't\"\n echo 'don\\'t${a}\"' %}",
+    "{% liquid echo a['\u00a0']\n echo ['\u2028'] %}{% echo a['\u00a0'] %}{{ a['\u2028'] }}",
     "{% include 'a' for b as c %}{% render 'a' with b as 'y z' %}", "{{ b, | first }}",
     "{% macro 'my f' p %}{{ p }}{% endmacro %}{% call 'my f' 1 %}", "{% block 'a b' %}x{% endblock %}",
     "{% liquid echo a\n# note  %}", "{% liquid\n  echo ['a b']\n echo y[\"a\\nb\"]\n echo [true] %}",
@@ -1739,10 +1737,6 @@ KNOWN_WITNESSES = [
      "`['limit']` as the second item of an array-literal loop iterable is serialised as the bare word "
      "`limit`, which LoopExpression.parse takes for the limit option (and `offset: ['continue']` for the "
      "string 'continue')"),
-    ("unicode-space-in-bare-name", "{% liquid echo a['\u00a0'] %}",
-     "a word or dotted path segment may consist of or end in Unicode whitespace (U+00A0, U+2028 are in the WORD "
-     "range); _expression_as_string() ends with str.strip(), so the last token of a tag / line statement loses it "
-     "(fix proposed: proposed_fixes/C12/0014)"),
     ("unicode-space-in-bare-name", "{{ ['\u2028'] }}",
      "a variable whose name starts with Unicode whitespace is written bare, and the `\\s*` after `{{` swallows it"),
     ("loop-bare-word-reinterpreted", "{% for i in b offset: ['continue'] %}{{ i }}{% endfor %}",
